@@ -243,7 +243,7 @@ def tie_lines(case, out):
             if f[bopt] == "-":
                 plain = True
                 continue
-            tok = "%s/%s/%s/%s" % (f[bopt], f[sopt], f[10], f[11])
+            tok = "%s/%s/%s/%s/%s" % (f[bopt], f[sopt], f[10], f[11], f[13] if len(f) > 13 else "-")
             blk[f[1]] = tok
             wire.append(tok)
     if plain or not wire:
@@ -257,6 +257,8 @@ def tie_lines(case, out):
     obs = []
     cur = None         # events of the arrival being handled
     state_n, initial = 0, 0
+
+    cur_before = 0
 
     def close():
         nonlocal cur
@@ -280,16 +282,43 @@ def tie_lines(case, out):
                     letter = "F"
         if letter == "D" and case.dir == "b1" and toks and toks[-1].startswith("0/0/"):
             letter = "P"      # NUM 0 without More: handed to the application as it is
+        if case.dir == "b2" and letter == "C" and cur_before == 0 and state_n == 0 and \
+           not any(g[0] == "TXc" and g[3] == "1" for g in cur):
+            # no lg_crcv before or after and nothing requested: the block never reached the
+            # reassembly code ("large body receive internal issue": no lg_crcv, no request in
+            # the send queue to make one from)
+            toks.pop()
+            cur = None
+            return
         obs.append(letter)
         cur = None
 
+    txinfo = {}        # idx -> (sender, type, mid)
+    for f in ev:
+        if f[0] in ("TXc", "TXs") and f[2] != "UNPARSEABLE":
+            txinfo[f[1]] = (f[0], f[2], f[4])
+    last_ack_mid = last_con_mid = None
+    pending = None     # (token, n_before) of a Block2 arrival that may turn out to be ignored
     for f in ev:
         k = f[0]
         if k == "RX":
             close()
+            who, typ, mid = txinfo.get(f[1], ("?", "?", "?"))
+            if case.dir == "b2" and who == "TXs":
+                # message layer of the client (handle_response): a repeated ACK / CON Message-ID
+                # is not processed again
+                if typ == "2":
+                    if mid == last_ack_mid:
+                        continue
+                    last_ack_mid = mid
+                elif typ == "0":
+                    if mid == last_con_mid:
+                        continue
+                    last_con_mid = mid
             if f[1] in blk:
                 toks.append(blk[f[1]])
                 cur = []
+                cur_before = state_n
             continue
         if k in ("T", "END"):
             close()
